@@ -654,10 +654,13 @@ def plan(tier, rng):
     return jobs
 
 
-def space_universe(work):
+def space_universe(work, tier="quick"):
     """The ENOSPC ladder and the session shapes, enumerated by TLC from SpaceAcct (Emit_SpaceLadder)."""
     out = os.path.join(work, "space_universe.json")
-    r = T.tlc(os.path.join(SPEC, "Emit_SpaceLadder.tla"), os.path.join(SPEC, "Emit_SpaceLadder.cfg"), workers=1, timeout=300, env={"OUT": out}, xmx="1g")
+    cfg = os.path.join(work, "Emit_SpaceLadder.cfg")
+    consts = dict(SPACE_CONSTS, MaxFree=6 if tier == "quick" else 10, DevFallocLeak="TRUE", DevWriteLeak="FALSE", DevRangeNotDirty="FALSE")
+    T.write_cfg(cfg, init="Init", next="Next", constants=consts)
+    r = T.tlc(os.path.join(SPEC, "Emit_SpaceLadder.tla"), cfg, workers=1, timeout=300, env={"OUT": out}, xmx="1g")
     if not r.ok or not os.path.exists(out):
         die_broken("TLC could not enumerate the ladder universe (Emit_SpaceLadder): %s\n%s" % (r.error, r.out[-1500:]))
     u = json.load(open(out))
@@ -719,7 +722,7 @@ def run_filedata(b, drv, tier, work, ev, vd, rng):
         body = gen_history(rng, tabs, PROFILES[pn]["bs"], nops, obs)
         hist.append((b, drv, tm[pn], work, idx, pn, tabs, body, {}))
     # spec-enumerated families: ENOSPC ladder and session shapes
-    univ = space_universe(work)
+    univ = space_universe(work, tier)
     fam = plan_ladder(univ) + plan_sessions(univ, tier, rng)
     tm.update(make_templates(b, work, sorted({j[0] for j in fam} - set(tm))))
     for (pn, tabs, body, meta) in fam:
@@ -897,7 +900,7 @@ def ladder_coverage(univ, hist, seen, nfail, ev):
         out.setdefault((s, o), set()).add(oc)
     ev.cov["ladder"] = {"elements": len(want), "reached": len(want & got),
                         "outcomes": {"%s/%s" % k: "".join(str(seen_oc) for seen_oc in sorted(v)) for k, v in sorted(out.items())},
-                        "by_r": {str(r): sorted({"%s/%s:%d" % (s, o, oc) for (s, rr, o, oc) in seen if rr == r}) for r in range(0, 7)},
+                        "by_r": {str(r): sorted({"%s/%s:%d" % (s, o, oc) for (s, rr, o, oc) in seen if rr == r}) for r in sorted({e["r"] for e in univ["ladder"]})},
                         "session_shapes": sum(1 for h in hist if len(h) > 8 and h[8].get("shape"))}
     if nfail:
         return          # a rejected ladder history is reported as such; it cannot also count as reached
